@@ -91,5 +91,8 @@ Definition check_case_unrepaired (c : mcase) : bool :=
 
 (** the window of remembered headers: the deliveries of a tracker-driven case and the
     observed ChainTracker::headers length after each ([None] = the tracker refused) *)
-Definition wcase : Type := (list wop * list (option N))%type.
-Definition check_window (c : wcase) : bool := beq (win_trace winit (fst c)) (snd c).
+Definition wcase : Type := (N * list wop * list (option N))%type.
+(** [r0]: the blocks the tracker had followed (and remembers) when the case starts *)
+Definition wstart (r0 : N) : wst := mkw r0 r0 r0.
+Definition check_window (c : wcase) : bool :=
+  let '(r0, ops, seen) := c in beq (win_trace (wstart r0) ops) seen.
